@@ -906,132 +906,176 @@ func runPolylines(c *vkit.Collector, rng *vkit.Rng, budget int) {
 			cls += " with duplicate vertices"
 		}
 		c.Class(cls)
-		PL := ptList(pl)
-		key := fmt.Sprintf("pl#%d n=%d", k, n)
-		length := pl.Length()
-		c.Check("Polyline.Length "+key, fEq(vkit.App("m_Polyline_Length", PL), float64(length)))
-		// true cumulative lengths
-		cum := make([]*big.Float, n)
-		cum[0] = nf()
-		for i := 1; i < n; i++ {
-			cum[i] = badd(cum[i-1], vangle(unitOf(pl[i-1].Vector), unitOf(pl[i].Vector)))
+		checkPolyline(c, rng, pl, fmt.Sprintf("pl#%d n=%d", k, n), cls, false)
+	}
+	// polylines with one or more edges within 1e-4 .. 1e-9 rad of 180 degrees, on the equator, on a
+	// meridian (the direction of such an edge is then exact) and in random frames
+	frames := [][2]r3.Vector{{{X: 1}, {Y: 1}}, {{X: 1}, {Z: 1}}, {{Z: -1}, {Y: 1}}}
+	for r := 0; r < 2*budget; r++ {
+		e1 := randPoint(rng)
+		frames = append(frames, [2]r3.Vector{e1.Vector, tangentAt(rng, e1)})
+	}
+	for fi, fr := range frames {
+		for _, gap := range []float64{1e-4, 1e-5, 1e-6, 1e-7, 1e-8, 1e-9} {
+			shapes := [][]float64{{math.Pi - gap}, {math.Pi - gap, 1}, {0.5, math.Pi - gap}, {math.Pi - gap, math.Pi - 3*gap}, {0.3, math.Pi - gap, 1e-3, math.Pi - 2*gap}}
+			for pick := 0; pick < 2; pick++ {
+				sh := shapes[rng.Intn(len(shapes))]
+				if fi < 2 && pick == 0 {
+					sh = shapes[1] // the C17-mut6 demo shape: 0 -> pi-gap -> pi-gap+1
+				}
+				lam := 0.0
+				pl := s2.Polyline{norm(comb(fr[0], 1, fr[1], 0))}
+				for _, d := range sh {
+					lam += d
+					pl = append(pl, norm(comb(fr[0], math.Cos(lam), fr[1], math.Sin(lam))))
+				}
+				cls := fmt.Sprintf("polyline with an edge within %.0e rad of 180deg", gap)
+				c.Class(cls)
+				checkPolyline(c, rng, pl, fmt.Sprintf("straight#%d gap=%g n=%d/%d", fi, gap, len(pl), pick), cls, true)
+			}
 		}
-		tl := cum[n-1]
-		if e := f64(babs(bsub(bf(float64(length)), tl))); e > float64(n+4)*2.3e-16*(f64(tl)+1e-15)+float64(n)*4e-16 {
-			c.Violate("Polyline.Length", fmt.Sprintf("length off by %.3g", e), rep("n", n, "length", float64(length)))
+	}
+}
+
+func checkPolyline(c *vkit.Collector, rng *vkit.Rng, pl s2.Polyline, key, cls string, nearStraight bool) {
+	n := len(pl)
+	PL := ptList(pl)
+	length := pl.Length()
+	c.Check("Polyline.Length "+key, fEq(vkit.App("m_Polyline_Length", PL), float64(length)))
+	// true cumulative lengths
+	cum := make([]*big.Float, n)
+	cum[0] = nf()
+	for i := 1; i < n; i++ {
+		cum[i] = badd(cum[i-1], vangle(unitOf(pl[i-1].Vector), unitOf(pl[i].Vector)))
+	}
+	tl := cum[n-1]
+	if e := f64(babs(bsub(bf(float64(length)), tl))); e > float64(n+4)*2.3e-16*(f64(tl)+1e-15)+float64(n)*4e-16 {
+		c.Violate("Polyline.Length", fmt.Sprintf("length off by %.3g", e), rep("n", n, "length", float64(length), "true_length", tl, "polyline_bits", plBits(pl)))
+	}
+	fr := []float64{0, 1, -0.5, 1.5, 0.5, rng.Float(), rng.Float(), vkit.Ulps(1, -1), 1e-12}
+	nfr := len(fr)
+	if n > 50 {
+		nfr = 6
+	}
+	for _, f := range fr[:nfr] {
+		var q s2.Point
+		var next int
+		var u float64
+		if m := try(func() { q, next = pl.Interpolate(f); u = pl.Uninterpolate(q, next) }); m != "" {
+			c.Violate("Polyline.panic", "Interpolate/Uninterpolate panicked on a non-empty polyline: "+m, rep("polyline_bits", plBits(pl), "fraction", f))
+			continue
 		}
-		fr := []float64{0, 1, -0.5, 1.5, 0.5, rng.Float(), rng.Float(), vkit.Ulps(1, -1), 1e-12}
-		nfr := len(fr)
-		if n > 50 {
-			nfr = 6
+		c.Eval(fmt.Sprintf("%s f=%v", key, f), n > 1)
+		c.Check(fmt.Sprintf("Polyline.Interpolate %s f=%v", key, f), vkit.App("pair_beq s2_Point_eqbits Z.eqb", vkit.App("m_Polyline_Interpolate", PL, vkit.F(f)), vkit.Pair(pt(q), vkit.Z(int64(next)))))
+		R := rep("polyline_bits", plBits(pl), "fraction", f, "point", q, "next", next)
+		if next < 1 || next > n {
+			c.Violate("Polyline.Interpolate.next", "next vertex index outside [1,len]", R)
+			continue
 		}
-		for _, f := range fr[:nfr] {
-			var q s2.Point
-			var next int
-			var u float64
-			if m := try(func() { q, next = pl.Interpolate(f); u = pl.Uninterpolate(q, next) }); m != "" {
-				c.Violate("Polyline.panic", "Interpolate/Uninterpolate panicked on a non-empty polyline: "+m, rep("polyline_bits", plBits(pl), "fraction", f))
-				continue
+		if f <= 0 && (q != pl[0] || next != 1) {
+			c.Violate("Polyline.Interpolate.ends", "fraction <= 0 does not return the first vertex", R)
+		}
+		if f >= 1 && (q != pl[n-1] || next != n) {
+			if f64(vangle(unitOf(q.Vector), unitOf(pl[n-1].Vector))) < 1e-14 {
+				// Within rounding of the last vertex (the walk stops in the last segment because of the
+				// rounding of target -= length). The doc comment promises next = len here, but property C17
+				// only asks for agreement within the error bounds, so this is counted, not reported.
+				c.Class("polyline:Interpolate(>=1) lands within 1e-14 rad of the last vertex but not on it")
+			} else {
+				c.Violate("Polyline.Interpolate.ends", "fraction >= 1 does not return the last vertex", R)
 			}
-			c.Eval(fmt.Sprintf("%s f=%v", key, f), n > 1)
-			c.Check(fmt.Sprintf("Polyline.Interpolate %s f=%v", key, f), vkit.App("pair_beq s2_Point_eqbits Z.eqb", vkit.App("m_Polyline_Interpolate", PL, vkit.F(f)), vkit.Pair(pt(q), vkit.Z(int64(next)))))
-			R := rep("polyline_bits", plBits(pl), "fraction", f, "point", q, "next", next)
-			if next < 1 || next > n {
-				c.Violate("Polyline.Interpolate.next", "next vertex index outside [1,len]", R)
-				continue
+		}
+		c.Check(fmt.Sprintf("Polyline.Uninterpolate %s f=%v", key, f), fEq(vkit.App("m_Polyline_Uninterpolate", PL, pt(q), vkit.Z(int64(next))), u))
+		if !(u >= 0 && u <= 1) {
+			c.Violate("Polyline.Uninterpolate.range", fmt.Sprintf("Uninterpolate = %v outside [0,1]", u), R)
+		}
+		if n >= 2 && tl.Sign() > 0 {
+			L := f64(tl)
+			tol := float64(n+10) * 1e-15 * (1 + 1/L)
+			fc := math.Max(0, math.Min(1, f))
+			track("max_uninterpolate_roundtrip_error/tol", math.Abs(u-fc)/tol)
+			if math.Abs(u-fc) > tol {
+				c.Violate("Polyline.Uninterpolate.roundtrip", fmt.Sprintf("Uninterpolate(Interpolate(%v)) = %v", f, u), R)
 			}
-			if f <= 0 && (q != pl[0] || next != 1) {
-				c.Violate("Polyline.Interpolate.ends", "fraction <= 0 does not return the first vertex", R)
+			// the interpolated point is at true arc length f*L along the polyline
+			at := badd(cum[next-1], vangle(unitOf(pl[next-1].Vector), unitOf(q.Vector)))
+			if next-1 >= 1 && q == pl[next-1] {
+				at = cum[next-1]
 			}
-			if f >= 1 && (q != pl[n-1] || next != n) {
-				if f64(vangle(unitOf(q.Vector), unitOf(pl[n-1].Vector))) < 1e-14 {
-					// Within rounding of the last vertex (the walk stops in the last segment because of the
-					// rounding of target -= length). The doc comment promises next = len here, but property C17
-					// only asks for agreement within the error bounds, so this is counted, not reported.
-					c.Class("polyline:Interpolate(>=1) lands within 1e-14 rad of the last vertex but not on it")
-				} else {
-					c.Violate("Polyline.Interpolate.ends", "fraction >= 1 does not return the last vertex", R)
+			want := bmul(bf(fc), tl)
+			if e := f64(babs(bsub(at, want))); e > tol*L+1e-14 {
+				c.Violate("Polyline.Interpolate.accuracy", fmt.Sprintf("interpolated point is at arc length off by %.3g", e), R)
+			}
+			if next < n {
+				// off the segment: InterpolateAtDistance takes the direction from PointCross(a, b), whose
+				// direction error is ~ eps*kappa, kappa = 2/|a+b| (large only for edges near 180 degrees)
+				_, kappa := poleParams(q, pl[next-1], pl[next])
+				offTol := 1e-14 + 4e-16*kappa
+				if pc, _, okp := trueSegDist(q.Vector, pl[next-1].Vector, pl[next].Vector); okp {
+					if off := f64(angleOfChord2(pc)); off > offTol {
+						c.Violate("Polyline.Interpolate.on_segment", fmt.Sprintf("interpolated point is %.3g rad off its segment (tolerance %.3g)", off, offTol), R)
+					}
 				}
-			}
-			c.Check(fmt.Sprintf("Polyline.Uninterpolate %s f=%v", key, f), fEq(vkit.App("m_Polyline_Uninterpolate", PL, pt(q), vkit.Z(int64(next))), u))
-			if !(u >= 0 && u <= 1) {
-				c.Violate("Polyline.Uninterpolate.range", fmt.Sprintf("Uninterpolate = %v outside [0,1]", u), R)
-			}
-			if n >= 2 && tl.Sign() > 0 {
-				L := f64(tl)
-				tol := float64(n+10) * 1e-15 * (1 + 1/L)
-				fc := math.Max(0, math.Min(1, f))
-				track("max_uninterpolate_roundtrip_error/tol", math.Abs(u-fc)/tol)
-				if math.Abs(u-fc) > tol {
-					c.Violate("Polyline.Uninterpolate.roundtrip", fmt.Sprintf("Uninterpolate(Interpolate(%v)) = %v", f, u), R)
-				}
-				// the interpolated point is at true arc length f*L along the polyline
-				at := badd(cum[next-1], vangle(unitOf(pl[next-1].Vector), unitOf(q.Vector)))
-				if next-1 >= 1 && q == pl[next-1] {
-					at = cum[next-1]
-				}
-				want := bmul(bf(fc), tl)
-				if e := f64(babs(bsub(at, want))); e > tol*L+1e-14 {
-					c.Violate("Polyline.Interpolate.accuracy", fmt.Sprintf("interpolated point is at arc length off by %.3g", e), R)
-				}
-				if next < n {
-					if pc, _, okp := trueSegDist(q.Vector, pl[next-1].Vector, pl[next].Vector); okp {
-						if off := f64(angleOfChord2(pc)); off > 1e-14 {
-							c.Violate("Polyline.Interpolate.on_segment", fmt.Sprintf("interpolated point is %.3g rad off its segment", off), R)
-						}
+				// together with the arc length from vertex next-1 this pins the exact point at arc length f*L:
+				// the remaining arc to vertex next must be the rest of that edge
+				if q != pl[next-1] {
+					rest := bsub(cum[next], want)
+					if e := f64(babs(bsub(vangle(unitOf(q.Vector), unitOf(pl[next].Vector)), rest))); e > tol*L+1e-14+offTol {
+						c.Violate("Polyline.Interpolate.accuracy", fmt.Sprintf("interpolated point is %.3g rad from the exact point at arc length f*L (measured from the next vertex)", e), R)
 					}
 				}
 			}
 		}
-		// Project / IsOnRight
-		nq := 3
-		if n > 50 {
-			nq = 1
+	}
+	// Project / IsOnRight
+	nq := 3
+	if n > 50 {
+		nq = 1
+	}
+	for j := 0; j < nq; j++ {
+		var x s2.Point
+		switch rng.Intn(4) {
+		case 0:
+			x = pl[rng.Intn(n)]
+		case 1:
+			v := pl[rng.Intn(n)]
+			x = along(v, tangentAt(rng, v), []float64{1e-15, 1e-9, 1e-3}[rng.Intn(3)])
+		default:
+			x = randPoint(rng)
 		}
-		for j := 0; j < nq; j++ {
-			var x s2.Point
-			switch rng.Intn(4) {
-			case 0:
-				x = pl[rng.Intn(n)]
-			case 1:
-				v := pl[rng.Intn(n)]
-				x = along(v, tangentAt(rng, v), []float64{1e-15, 1e-9, 1e-3}[rng.Intn(3)])
-			default:
-				x = randPoint(rng)
+		var q s2.Point
+		var next int
+		if m := try(func() { q, next = pl.Project(x) }); m != "" {
+			c.Violate("Polyline.panic", "Project panicked on a non-empty polyline: "+m, rep("polyline_bits", plBits(pl), "x", x))
+			continue
+		}
+		c.Evals++
+		c.Check(fmt.Sprintf("Polyline.Project %s #%d", key, j), vkit.App("pair_beq s2_Point_eqbits Z.eqb", vkit.App("m_Polyline_Project", PL, pt(x)), vkit.Pair(pt(q), vkit.Z(int64(next)))))
+		R := rep("polyline_bits", plBits(pl), "x", x, "point", q, "next", next)
+		if next < 1 || next > n {
+			c.Violate("Polyline.Project.next", "next vertex index outside [1,len]", R)
+			continue
+		}
+		// oracle: min over all segments
+		var best *big.Float
+		if n == 1 {
+			best = vnorm2(vsub(unitOf(x.Vector), unitOf(pl[0].Vector)))
+		}
+		for i := 1; i < n; i++ {
+			if t, _, okq := trueSegDist(x.Vector, pl[i-1].Vector, pl[i].Vector); okq && (best == nil || t.Cmp(best) < 0) {
+				best = t
 			}
-			var q s2.Point
-			var next int
-			if m := try(func() { q, next = pl.Project(x) }); m != "" {
-				c.Violate("Polyline.panic", "Project panicked on a non-empty polyline: "+m, rep("polyline_bits", plBits(pl), "x", x))
-				continue
-			}
-			c.Evals++
-			c.Check(fmt.Sprintf("Polyline.Project %s #%d", key, j), vkit.App("pair_beq s2_Point_eqbits Z.eqb", vkit.App("m_Polyline_Project", PL, pt(x)), vkit.Pair(pt(q), vkit.Z(int64(next)))))
-			R := rep("polyline_bits", plBits(pl), "x", x, "point", q, "next", next)
-			if next < 1 || next > n {
-				c.Violate("Polyline.Project.next", "next vertex index outside [1,len]", R)
-				continue
-			}
-			// oracle: min over all segments
-			var best *big.Float
-			if n == 1 {
-				best = vnorm2(vsub(unitOf(x.Vector), unitOf(pl[0].Vector)))
-			}
-			for i := 1; i < n; i++ {
-				if t, _, okq := trueSegDist(x.Vector, pl[i-1].Vector, pl[i].Vector); okq && (best == nil || t.Cmp(best) < 0) {
-					best = t
-				}
-			}
-			X3, Q3 := unitOf(x.Vector), unitOf(q.Vector)
-			e1 := f64(babs(bsub(vangle(X3, Q3), angleOfChord2(best))))
-			e2 := f64(babs(bsub(vnorm2(vsub(X3, Q3)), best)))
-			if e1 > 1e-14 && e2 > 3e-15 {
-				c.Violate("Polyline.Project.distance", fmt.Sprintf("projected point is %.3g rad farther/closer than the true closest distance", e1), R)
-			}
-			if n >= 2 {
-				or := s2.OrderedCCW(pl[imax(next-2, 0)], x, pl[imin(next, n-1)], pl[next-1])
-				c.Check(fmt.Sprintf("Polyline.IsOnRight %s #%d", key, j), vkit.App("Bool.eqb", vkit.App("m_Polyline_IsOnRight", vkit.B(or), PL, pt(x)), vkit.B(pl.IsOnRight(x))))
-			}
+		}
+		X3, Q3 := unitOf(x.Vector), unitOf(q.Vector)
+		e1 := f64(babs(bsub(vangle(X3, Q3), angleOfChord2(best))))
+		e2 := f64(babs(bsub(vnorm2(vsub(X3, Q3)), best)))
+		// (edges near 180 degrees: Project's conditioning is covered with its kappa tolerance in checkTriple)
+		if !nearStraight && e1 > 1e-14 && e2 > 3e-15 {
+			c.Violate("Polyline.Project.distance", fmt.Sprintf("projected point is %.3g rad farther/closer than the true closest distance", e1), R)
+		}
+		if n >= 2 {
+			or := s2.OrderedCCW(pl[imax(next-2, 0)], x, pl[imin(next, n-1)], pl[next-1])
+			c.Check(fmt.Sprintf("Polyline.IsOnRight %s #%d", key, j), vkit.App("Bool.eqb", vkit.App("m_Polyline_IsOnRight", vkit.B(or), PL, pt(x)), vkit.B(pl.IsOnRight(x))))
 		}
 	}
 }
